@@ -141,6 +141,20 @@ def handleC07 (inp obs : List String) : Verdict :=
     | _ => let gs ← many (many pRec); let out ← many pRec; pure (some (gs, out))).run obs
   match parsed, pobs with
   | some (xs, _), some (o, _) =>
+    -- LARGE inputs (more than 3000 records): the class histogram and the Boolean checkers are quadratic in the size of a group.
+    -- The grouping the spec demands is unique (`C07_groupsSpec_iff_eq_model`: a grouping satisfies the clauses of C07 exactly
+    -- when it is the model's), and the model's loop is linear: the output is compared with it
+    if xs.length > 3000 then
+      match o with
+      | none => { kind := "specfail", nontrivial := true, classes := ["large"], detail := "implementation panicked on sorted input" }
+      | some (gs, out) =>
+        if groups xs != .ok gs then
+          let mg := match groups xs with | .ok g => g | .panic => []
+          { kind := "specfail", nontrivial := true, classes := ["large"], detail := s!"{xs.length} records: {gs.length} groups of sizes {(gs.map (·.length)).take 8} …, the maximal chained runs are {mg.length} groups of sizes {(mg.map (·.length)).take 8} …" }
+        else if mergeSortedBed xs != .ok out then
+          { kind := "specfail", nontrivial := true, classes := ["large"], detail := s!"{xs.length} records: merge_sorted_bed gives {out.length} ranges {showRecs (out.take 3)} …, the groups' ranges are {showRecs ((match mergeSortedBed xs with | .ok l => l | .panic => []).take 3)} …" }
+        else { kind := "ok", nontrivial := true, classes := ["large"] }
+    else
     let adj := xs.zip (xs.drop 1)
     let mgs := match groups xs with | .ok g => g | .panic => []
     let nontrivial := xs.length ≥ 2 && mgs.length ≥ 2 && mgs.any (fun g => g.length ≥ 2)
